@@ -737,16 +737,31 @@ def prove_nwn_contract(ctx):
   return ok
 
 
-def unit_plane_capsule(ctx):
+def unit_nwn(ctx):
+  from mujoco_warp._src import math as mjmath
+
+  ctx.encode(mjmath.normalize_with_norm)
+  ctx.bound(note="no loops; input vector symbolic")
+  ctx.assume("floats are reals")
+  kt0, _ = run_wrapper("k_normalize_with_norm", {"n_out": [1], "norm_out": [1]}, divmode="poly")
+  ctx.reach(ctx.session(kt0.bg), "twin:reachable", True)
+  prove_nwn_contract(ctx)
+
+
+def unit_plane_capsule(only_regime):
+  def run(ctx):
+    _unit_plane_capsule(ctx, only_regime)
+
+  return run
+
+
+def _unit_plane_capsule(ctx, only_regime):
   from mujoco_warp._src import collision_primitive_core as cpc
   from mujoco_warp._src import math as mjmath
 
   ctx.encode(cpc.plane_capsule, cpc.plane_sphere, mjmath.normalize_with_norm)
-  ctx.bound(note="no loops; all inputs symbolic; normalize_with_norm is first proved to satisfy its contract and then used through it")
+  ctx.bound(regime=only_regime, note="no loops; all inputs symbolic; normalize_with_norm is used through its contract, which unit geometry/normalize_with_norm proves for the real function; one unit per regime (projected capsule axis long / short with default axis e_y / e_z)")
   ctx.assume("plane normal and capsule axis are unit vectors (columns of rotation matrices)", "floats are reals")
-  if not prove_nwn_contract(ctx):
-    ctx.notes.append("normalize_with_norm contract not established: plane_capsule frame claims not attempted")
-    return
   calls = []
 
   def summary(it, fr, args):
@@ -776,6 +791,8 @@ def unit_plane_capsule(ctx):
   iny = z3.And(n[1] > Q("-1/2"), n[1] < Q("1/2"))
   regimes = (("aligned", big, pins[0]), ("fallback-y", z3.And(z3.Not(big), iny), pins[3]), ("fallback-z", z3.And(z3.Not(big), z3.Not(iny)), pins[5]))
   for regime, cond, twin in regimes:
+    if regime != only_regime:
+      continue
     P = Proof(ctx, base + [cond], names, rp, prefix=f"{regime}/", pins=pins)
     ctx.reach(P.full, f"twin:{regime}-regime", twin)
     P.goal("frame/x-is-plane-normal", veq(x, n), desc="plane_capsule: first frame axis is not the plane normal")
@@ -1141,7 +1158,10 @@ def units(include_frame=True):
     ("geometry/sphere_sphere", unit_sphere_sphere),
     ("geometry/closest_segment_point", unit_closest),
     ("geometry/sphere_capsule", unit_sphere_capsule),
-    ("geometry/plane_capsule", unit_plane_capsule),
+    ("geometry/normalize_with_norm", unit_nwn),
+    ("geometry/plane_capsule/aligned", unit_plane_capsule("aligned")),
+    ("geometry/plane_capsule/fallback-y", unit_plane_capsule("fallback-y")),
+    ("geometry/plane_capsule/fallback-z", unit_plane_capsule("fallback-z")),
     ("geometry/capsule_capsule", unit_capsule_capsule),
     ("geometry/plane_box", unit_plane_box),
   ]
